@@ -239,10 +239,9 @@ func (fv *FuncVC) evalBuiltin(call *ast.CallExpr, name string, st *State) []Val 
 		mt := types.Unalias(fv.typeOf(call.Args[0])).Underlying().(*types.Map)
 		ks, vs := fv.th.sortOf(mt.Key()), fv.th.sortOf(mt.Elem())
 		d, _, c := fv.declMapHeaps(ks, vs)
-		D, C := fv.getHeap(st, d), fv.getHeap(st, c)
-		had := sx("select", sx("select", D, m.T), k.T)
+		_ = c
+		D := fv.getHeap(st, d)
 		fv.setHeap(st, d, sx("store", D, m.T, sx("store", sx("select", D, m.T), k.T, "false")))
-		fv.setHeap(st, c, sx("store", C, m.T, sx("-", sx("select", C, m.T), mkIte(had, "1", "0"))))
 		return nil
 	case "min", "max":
 		if len(call.Args) == 2 {
@@ -326,6 +325,12 @@ func (fv *FuncVC) evalArgs(call *ast.CallExpr, f *types.Func, st *State) (recv *
 			sel := fv.info.Selections[se]
 			rv := fv.eval(se.X, st)
 			rt := fv.typeOf(se.X)
+			inRepo := fv.w.ByObj[f.Origin()] != nil
+			if !inRepo {
+				// methods of dependency types: objects are opaque references, the receiver is the value itself
+				recv = &rv
+				goto args
+			}
 			if sel != nil && len(sel.Index()) > 1 {
 				// promoted method through embedded fields
 				rv = fv.selectPath(rv, rt, sel.Index()[:len(sel.Index())-1], st, fv.text(se))
@@ -344,6 +349,7 @@ func (fv *FuncVC) evalArgs(call *ast.CallExpr, f *types.Func, st *State) (recv *
 			recv = &rv
 		}
 	}
+args:
 	params := sig.Params()
 	np := params.Len()
 	if _, isTuple := fv.typeOf(firstArg(call)).(*types.Tuple); len(call.Args) == 1 && np > 1 && isTuple {
@@ -455,6 +461,7 @@ func (fv *FuncVC) pureApp(call *ast.CallExpr, f *types.Func, full string, recv *
 			name += fmt.Sprintf("$r%d", i)
 		}
 		var term string
+		first := !fv.th.declSeen[name]
 		if len(all) == 0 {
 			term = fv.th.declConst(name, rs)
 		} else {
@@ -466,9 +473,31 @@ func (fv *FuncVC) pureApp(call *ast.CallExpr, f *types.Func, full string, recv *
 			term = sx(name, ts...)
 		}
 		v := Val{term, rs, rt}
-		fv.rangeFact(st, v)
-		if rs == SSlice {
-			fv.addFact(st, sx(">=", sx("sl_len", term), "0"))
+		if first {
+			// range / well-formedness of results as global axioms (arguments may be bound variables)
+			var binders, bn []string
+			for j, srt := range sorts {
+				b := fmt.Sprintf("a%d", j)
+				binders = append(binders, fmt.Sprintf("(%s %s)", b, srt))
+				bn = append(bn, b)
+			}
+			app := name
+			if len(bn) > 0 {
+				app = sx(name, bn...)
+			}
+			var body string
+			if lo, hi, ok := intRange(rt); ok && rs == SInt {
+				body = mkAnd(sx("<=", lo, app), sx("<=", app, hi))
+			} else if rs == SSlice {
+				body = sx(">=", sx("sl_len", app), "0")
+			}
+			if body != "" {
+				if len(bn) > 0 {
+					fv.th.axioms = append(fv.th.axioms, fmt.Sprintf("(forall (%s) (! %s :pattern (%s)))", strings.Join(binders, " "), body, app))
+				} else {
+					fv.th.axioms = append(fv.th.axioms, body)
+				}
+			}
 		}
 		out = append(out, v)
 	}
@@ -525,26 +554,10 @@ func (fv *FuncVC) callContract(call *ast.CallExpr, fi *FuncInfo, recv *Val, args
 		}
 	}
 	// frame
-	for _, m := range fc.Modifies {
-		if m == "*" {
-			fv.havocAllHeaps(st)
-			break
-		}
-		if _, ok := fv.heapSort[m]; !ok {
-			if s, ok2 := fv.resolveHeapName(m); ok2 {
-				fv.heapDecl(m, s)
-			} else {
-				fv.note("modifies clause names unknown heap %s", m)
-				fv.havocAllHeaps(st)
-				break
-			}
-		}
-		fv.getHeap(st, m)
-		fv.havocHeap(st, m)
-		if m != "alloc" && strings.HasPrefix(m, "H$") {
-			// allocation may have happened too
-		}
+	for _, loc := range fv.modLocs(fc.Modifies, fv.calleeScope(fi, pre, pre, bind, nil)) {
+		fv.havocLoc(st, loc)
 	}
+	fv.applyGhostSets(fc, st, fv.calleeScope(fi, pre, pre, bind, nil))
 	// results
 	var results []Val
 	resBind := map[string]Val{}
@@ -645,20 +658,8 @@ func (fv *FuncVC) callExtern(call *ast.CallExpr, f *types.Func, ex *ExternSpec, 
 	} else if ex.Pure {
 		results = fv.pureApp(call, f, ex.Key, recv, args, st)
 	} else {
-		for _, m := range ex.Modifies {
-			if m == "*" {
-				fv.havocAllHeaps(st)
-				break
-			}
-			if _, ok := fv.heapSort[m]; !ok {
-				if s, ok2 := fv.resolveHeapName(m); ok2 {
-					fv.heapDecl(m, s)
-				} else {
-					continue
-				}
-			}
-			fv.getHeap(st, m)
-			fv.havocHeap(st, m)
+		for _, loc := range fv.modLocs(ex.Modifies, fv.externScope(pre, pre, bind, nil)) {
+			fv.havocLoc(st, loc)
 		}
 		for i := 0; i < sig.Results().Len(); i++ {
 			rt := sig.Results().At(i).Type()
@@ -687,4 +688,108 @@ func firstArg(call *ast.CallExpr) ast.Expr {
 		return nil
 	}
 	return call.Args[0]
+}
+
+// modLoc is one entry of a modifies clause: a whole heap, or one object of a heap.
+type modLoc struct {
+	heap string // "*" = everything
+	ref  string // "" = the whole heap
+}
+
+// modLocs resolves modifies entries. Forms: `*`, a raw heap name, `contents(x)` (the elements of
+// slice x), `x.f` (field f of the struct x points to), `deref(p)` (the pointee of p),
+// `keys(m)` (the map m: domain and values).
+func (fv *FuncVC) modLocs(entries []string, sc *SpecScope) []modLoc {
+	var out []modLoc
+	for _, m := range entries {
+		m = strings.TrimSpace(m)
+		if m == "" {
+			continue
+		}
+		if m == "*" {
+			out = append(out, modLoc{"*", ""})
+			continue
+		}
+		if m == "alloc" || strings.Contains(m, "$") {
+			if _, ok := fv.heapSort[m]; !ok {
+				if s, ok2 := fv.resolveHeapName(m); ok2 {
+					fv.heapDecl(m, s)
+				} else {
+					specFail("modifies: unknown heap %s", m)
+				}
+			}
+			out = append(out, modLoc{m, ""})
+			continue
+		}
+		n, err := parseSpecExpr(m)
+		if err != nil {
+			specFail("modifies: %v", err)
+		}
+		switch x := n.(type) {
+		case *SCall:
+			id, _ := x.Fun.(*SIdent)
+			if id != nil && len(x.Args) == 1 {
+				a := fv.specEval(x.Args[0], sc)
+				switch id.Name {
+				case "contents":
+					et := elemType(a.GoT)
+					if a.S != SSlice || et == nil {
+						specFail("modifies contents(): not a slice")
+					}
+					out = append(out, modLoc{fv.declSliceHeap(fv.th.sortOf(et)), sx("sl_ref", a.T)})
+					continue
+				case "deref":
+					pt, ok := types.Unalias(a.GoT).Underlying().(*types.Pointer)
+					if !ok {
+						specFail("modifies deref(): not a pointer")
+					}
+					out = append(out, modLoc{fv.declPtrHeap(fv.th.sortOf(pt.Elem())), a.T})
+					continue
+				case "keys":
+					mt, ok := types.Unalias(a.GoT).Underlying().(*types.Map)
+					if !ok {
+						specFail("modifies keys(): not a map")
+					}
+					d, v, _ := fv.declMapHeaps(fv.th.sortOf(mt.Key()), fv.th.sortOf(mt.Elem()))
+					out = append(out, modLoc{d, a.T}, modLoc{v, a.T})
+					continue
+				}
+			}
+		case *SSelect:
+			base := fv.specEval(x.X, sc)
+			pt, ok := types.Unalias(base.GoT).Underlying().(*types.Pointer)
+			if ok {
+				if stt, ok := pt.Elem().Underlying().(*types.Struct); ok {
+					for i := 0; i < stt.NumFields(); i++ {
+						if stt.Field(i).Name() == x.Sel {
+							h := fv.declFieldHeap(fv.th.sortOf(pt.Elem()), x.Sel, fv.th.sortOf(stt.Field(i).Type()))
+							out = append(out, modLoc{h, base.T})
+						}
+					}
+					continue
+				}
+			}
+		}
+		specFail("modifies: unsupported location %q", m)
+	}
+	return out
+}
+
+func innerSort(heapSort Sort) Sort {
+	s := string(heapSort)
+	return Sort(strings.TrimSuffix(strings.TrimPrefix(s, "(Array Ref "), ")"))
+}
+
+func (fv *FuncVC) havocLoc(st *State, loc modLoc) {
+	if loc.heap == "*" {
+		fv.havocAllHeaps(st)
+		return
+	}
+	fv.getHeap(st, loc.heap)
+	if loc.ref == "" {
+		fv.havocHeap(st, loc.heap)
+		return
+	}
+	inner := fv.th.freshConst("mod$"+sanitize(loc.heap), innerSort(fv.heapSort[loc.heap]))
+	fv.setHeap(st, loc.heap, sx("store", fv.getHeap(st, loc.heap), loc.ref, inner))
 }
